@@ -126,7 +126,7 @@ int verif_case(const uint8_t *tape, size_t tlen, Info *info) {
   unsigned nsess = sweep ? 1 : (unsigned)t.pick({3, 1}) + 1;
   // Read from the END of the tape (backwards, behind the bytes of the draws further down): a third session, and sessions whose message id counters
   // coincide (each session draws its first message id at random, so equal ids in two sessions of one send queue are legal and happen)
-  std::vector<uint8_t> rev2(tape, tape + (tlen > 16 ? tlen - 16 : 0));
+  std::vector<uint8_t> rev2(tape, tape + (tlen >= 48 ? tlen - 16 : 0));   // (short tapes - the saved replays among them - keep their meaning)
   std::reverse(rev2.begin(), rev2.end());
   Tape tb2(rev2.data(), rev2.size());
   bool same_mids = false;
